@@ -120,7 +120,7 @@ Lemma qop_frame fuel o q e h e' h' ob : slot_of o = Some q -> closed P h ->
      end.
 Proof.
   intros So C Hc E.
-  destruct o as [nm|app nm args|nm args|nm ar rows|ov script| |q0 nm args|q0|q0|q0]; try discriminate;
+  destruct o as [nm|app nm args|nm args|nm ar rows|ov script| |q0 nm args|q0|q0|q0|ts]; try discriminate;
     inversion So; subst q0; cbn [estep] in *;
     (destruct (aget Nat.eqb q (cursors e)) as [c|] eqn:Eq;
       [destruct (Hc c eq_refl) as [G Hf]
@@ -219,7 +219,7 @@ Theorem estep_frame fuel o e h e' h' ob : closed P h -> einv e ->
   estep fuel n i o e (fP P h) = (e', fP P h', ob)
   /\ fN P h' = fN P h /\ einv e' /\ closed P h' /\ newP P h h'.
 Proof.
-  intros C I E. destruct o as [nm|app nm args|nm args|nm ar rows|ov script| |q nm args|q|q|q]; cbn [estep] in *.
+  intros C I E. destruct o as [nm|app nm args|nm args|nm ar rows|ov script| |q nm args|q|q|q|ts]; cbn [estep] in *.
   - inversion E; subst. fin5; auto using newP_refl.
   - rewrite (den2_args_filter h args C). inversion E; subst. fin5; auto using newP_refl.
   - rewrite (retract_list_frame h (ccell n i (nstart e)) (map (rn (ucell n i)) args)
@@ -239,6 +239,7 @@ Proof.
   - apply (qop_frame_eng fuel (ONext q) q); auto.
   - apply (qop_frame_eng fuel (OClose q) q); auto.
   - apply (qop_frame_eng fuel (ODrain q) q); auto.
+  - rewrite (den2_args_filter h ts C). inversion E; subst. fin5; auto using newP_refl.
 Qed.
 
 (* noninterference form: two heaps that agree on the cells of engine i *)
